@@ -1,8 +1,8 @@
 #!/venv/bin/python
 """Re-generate the machine-assembled tail of DESIGN.md (idempotent):
 
-  §15  per-property "as built" summaries  <- design_parts/CNN.md
-  §16  which check catches which seeded change  <- seeded/*/meta.json + seeded/RESULTS.json
+  §16  per-property "as built" summaries  <- design_parts/CNN.md
+  §17  which check catches which seeded change  <- seeded/*/meta.json + seeded/RESULTS.json
 
 Everything above the marker line is hand-written and left untouched.
 """
@@ -17,7 +17,7 @@ def main():
     path = os.path.join(VERIF, "DESIGN.md")
     text = open(path).read()
     head = text.split(MARK)[0].rstrip() + "\n\n"
-    out = [MARK, "", "## 15. Per-property summaries, as built", "",
+    out = [MARK, "", "## 16. Per-property summaries, as built", "",
            "One block per property: explorer, enumerated space (with the counts of the last full run at the time of "
            "writing; the committed `evidence/CNN.json` has the current ones), oracle, interpretation, departures from "
            "the plan of §5, findings, false alarms corrected, detection, limits. The long build reports are `notes/CNN.md`.", ""]
@@ -27,7 +27,7 @@ def main():
         if os.path.exists(p):
             out += [open(p).read().rstrip(), ""]
     res = json.load(open(os.path.join(VERIF, "seeded", "RESULTS.json")))
-    out += ["## 16. Which check catches which seeded change", "",
+    out += ["## 17. Which check catches which seeded change", "",
             "Every directory `seeded/<id>/` holds one independent change to jsonargparse that breaks the named property, "
             "still imports, and still passes the repository's 1179 baseline tests (confirmed by the coordinator in a "
             "scratch copy, see `meta.json`). The table is the result of running the **registered quick command** of the "
